@@ -472,6 +472,17 @@ def replay(path: str) -> int:
     eh, en = c04._imports()
     vlib.build_vh()
     rec = json.loads(Path(path).read_text())["replay"]
+    if rec.get("kind") == "defuse":
+        import decode_harness as dh
+        arch, _ = dh._setup()
+        g = il_graph(arch, bytes(rec["bytes"]))
+        tf = vlib.scratch("C07") / "ilgraph-replay.json"
+        tf.write_text(json.dumps([g]))
+        res = run_tlc(SD, "TempDefUse", "TempDefUse.cfg", workers=1, env={"TRACE_FILE": str(tf)}, tag="C07-defuse-replay", timeout=600)
+        tf.unlink()
+        print(json.dumps(g))
+        print("DefBeforeUse violated" if res.invariant_violated else "DefBeforeUse holds")
+        return 1 if res.invariant_violated else 0
     seed = rec["seed"]
     encs = en.valid_structures("quick", 1)
     hist_encs = [e for e in encs if en.opcode_of(e) not in (0xDE, 0xDF, 0xFF)]
